@@ -97,9 +97,19 @@ func (s *SpokFile) buildGraph(requested ...string) (*dag.Graph[string, task.Task
 	// DAG of tasks using the name as the unique id
 	graph := dag.New[string, task.Task]()
 
-	// TODO: Make this recursive so it will go through dependencies of dependencies
-	for _, name := range requested {
-		requestedTask, ok := s.Tasks[name]
+	// Work through the requested tasks and then the dependencies of every task visited, so that
+	// dependencies of dependencies end up in the graph too. Every task is visited once.
+	visited := make(map[string]bool)
+	queue := append([]string{}, requested...)
+	for len(queue) != 0 {
+		name := queue[0]
+		queue = queue[1:]
+		if visited[name] {
+			continue
+		}
+		visited[name] = true
+
+		currentTask, ok := s.Tasks[name]
 		if !ok {
 			closest := s.findClosestMatch(name)
 			err := fmt.Errorf("Spokfile has no task %q", name)
@@ -111,25 +121,25 @@ func (s *SpokFile) buildGraph(requested ...string) (*dag.Graph[string, task.Task
 		}
 		// Add the task as a vertex to the graph if it doesn't already exist
 		if !graph.ContainsVertex(name) {
-			err := graph.AddVertex(name, requestedTask)
+			err := graph.AddVertex(name, currentTask)
 			if err != nil {
 				return nil, fmt.Errorf("could not add vertex for task %s: %w", name, err)
 			}
 		}
 
 		// For all of this tasks dependencies, do the same
-		for _, dep := range requestedTask.TaskDependencies {
+		for _, dep := range currentTask.TaskDependencies {
 			depTask, ok := s.Tasks[dep]
 			if !ok {
 				closest := s.findClosestMatch(dep)
-				err := fmt.Errorf("Task %q declares a dependency on task %q, which does not exist", requestedTask.Name, dep)
+				err := fmt.Errorf("Task %q declares a dependency on task %q, which does not exist", currentTask.Name, dep)
 				if closest != "" {
 					// We have a close enough match to do a "did you mean X?"
-					err = fmt.Errorf("Task %q declares a dependency on task %q, which does not exist. Did you mean %q?", requestedTask.Name, dep, closest)
+					err = fmt.Errorf("Task %q declares a dependency on task %q, which does not exist. Did you mean %q?", currentTask.Name, dep, closest)
 				}
 				return nil, err
 			}
-			s.logger.Debug("Task %s depends on task %s", requestedTask.Name, depTask.Name)
+			s.logger.Debug("Task %s depends on task %s", currentTask.Name, depTask.Name)
 			if !graph.ContainsVertex(dep) {
 				err := graph.AddVertex(dep, depTask)
 				if err != nil {
@@ -144,6 +154,9 @@ func (s *SpokFile) buildGraph(requested ...string) (*dag.Graph[string, task.Task
 			if err != nil {
 				return nil, fmt.Errorf("could not add edge %s -> %s: %w", dep, name, err)
 			}
+
+			// And make sure the dependency's own dependencies get looked at
+			queue = append(queue, dep)
 		}
 	}
 
@@ -170,9 +183,15 @@ func (s *SpokFile) Run(stream iostream.IOStream, runner shell.Runner, force bool
 
 	// Topological sort on the DAG to determine a run order
 	sortStart := time.Now()
+	nTasks := dag.Order()
 	runOrder, err := dag.Sort()
 	if err != nil {
 		return nil, err
+	}
+	if len(runOrder) != nTasks {
+		// The sort only ever yields tasks whose dependencies have all been yielded before them,
+		// so anything left over is part of (or depends on) a dependency cycle
+		return nil, errors.New("task dependencies contain a cycle and cannot be run")
 	}
 	names := make([]string, 0, len(runOrder))
 	for _, taskToRun := range runOrder {
